@@ -537,8 +537,17 @@ class CheckerBoardScatter(GridderScatter):
 
     target = "verde.synthetic:CheckerBoard.scatter"
 
+    def patch_modules(self, P):
+        # an override that delegates to BaseGridder.scatter runs the base class's module: same stubs there
+        import verde.base.base_classes as bc
+        import verde.synthetic as sy
+        from pyvc.contract import default_patches
+
+        default_patches(P, sy)
+        default_patches(P, bc)
+
     def configs(self, tier):
-        return [{"region": True}, {"region": False, "proj": True}, {"region": False, "extra": "one", "dims": ("lat", "lon")}]
+        return [{"region": True}, {"region": False, "proj": True}, {"region": False, "extra": "one", "dims": ("lat", "lon")}, {"region": True, "data_names": "anomaly"}, {"region": False, "dims": ("lat", "lon"), "data_names": ("anomaly",)}]
 
     def setup(self, B, cfg):
         from .models_c03 import _checker
@@ -550,6 +559,8 @@ class CheckerBoardScatter(GridderScatter):
             kw["projection"] = SymProjection()
         if cfg.get("dims"):
             kw["dims"] = cfg["dims"]
+        if cfg.get("data_names"):
+            kw["data_names"] = cfg["data_names"]
         if cfg.get("extra"):
             kw["extra_coords"] = B.real("x0")
         return (est,), kw
@@ -568,4 +579,7 @@ class CheckerBoardScatter(GridderScatter):
         for _ in range(4):
             est = verde.synthetic.CheckerBoard(amplitude=rng.uniform(1, 50), region=(rng.uniform(-5, 0), rng.uniform(1, 5), rng.uniform(-3, 0), rng.uniform(0.5, 9)))
             est.ncomp = 1
-            yield (est,), dict(size=rng.choice([1, 10]), random_state=rng.randint(0, 99))
+            kw = dict(size=rng.choice([1, 10]), random_state=rng.randint(0, 99))
+            if rng.random() < 0.6:
+                kw.update(rng.choice([dict(dims=("latitude", "longitude")), dict(data_names="anomaly"), dict(dims=("y", "x"), data_names=["bouguer"])]))
+            yield (est,), kw
